@@ -138,8 +138,8 @@ def mdd_structure(mdd, ext):
         level, kids = t[0], t[1:]
         if not (0 <= level < nlev):
             raise Violation('mdd', 'MDD-level-out-of-range', (u, t))
-        if kids[0] < 0:
-            raise Violation('mdd', 'MDD-first-edge-complemented', (u, t))
+        # (which edge is kept regular is a choice of normal form, not
+        # part of the property: canonicity is judged semantically)
         if len(set(kids)) == 1:
             raise Violation('mdd', 'MDD-redundant-node', (u, t))
         for c in kids:
